@@ -19,7 +19,7 @@ EXPLANATION = ("Over every function of the parser crates/modules (about 2400 MIR
                "searches on the same slice, is_empty/first/starts_with outcomes, earlier accesses) or on the reviewed list rules/c06_bounds.json (keyed by function and kind, counts "
                "compared; a review may name a validation elsewhere that must still be present); scalar indexing of Vec/SmallVec/BStr (Index::index calls) is part of it; "
                "(6) every division/remainder (MIR `divide by zero` assertion) and every chunks/windows/step_by size in the scope has a non-zero constant operand, one that derives only "
-               "from non-zero constants and hash lengths, or a reviewed reason. It does not prove the absence of all panics: additions/multiplications that overflow "
+               "from non-zero constants and hash lengths, or a reviewed reason. (7) every allocation in the scope whose size derives from a decoded integer is clamped (min/clamp) or reviewed, self-recursion driven by input nesting carries a checked depth, and ansi_c::undo never reports more consumed bytes than it saw. It does not prove the absence of all panics: additions/multiplications that overflow "
                "and panics inside callees outside the scope are not decided.")
 RULES = os.path.join(os.path.dirname(os.path.dirname(os.path.abspath(__file__))), "rules")
 EXTRA_SOURCES = re.compile(r"^(gix_utils::btoi::(to_signed|to_unsigned)(_with_radix)?|gix_index::util::var_int)$")
